@@ -6,6 +6,7 @@ import (
 	"math/rand"
 
 	"github.com/orda-io/orda/client/pkg/model"
+	"github.com/orda-io/orda/client/pkg/types"
 	"vh/core"
 	"vh/crdt"
 )
@@ -114,6 +115,21 @@ func c15Grid(c *core.Case) *core.Result {
 		}
 	}
 	c.Count("grid_keys", n)
+	// the ids clients and datatypes are given (ties between equal clocks are broken by client
+	// id, so two clients must never get the same one): 200 000 consecutive ids of the real
+	// generator are well-formed and pairwise distinct
+	seen := make(map[string]bool, 200000)
+	for i := 0; i < 200000; i++ {
+		id := types.NewUID()
+		if !types.ValidateUID(id) {
+			return c.Violation("uid-malformed", "the id generator produced %q, which its own validation rejects", id)
+		}
+		if seen[id] {
+			return c.Violation("uid-repeated", "the id generator produced %q twice within %d consecutive ids", id, i+1)
+		}
+		seen[id] = true
+	}
+	c.Count("generated_ids_checked", 200000)
 	c.NonTrivial()
 	c.Fingerprint("grid")
 	c.Sample(map[string]interface{}{"case": 0, "grid": fmt.Sprintf("era{0,1} x lamport[0,%d] x delimiter[0,%d] x %v", c15GridLamport, c15GridDelim, c15CUIDs), "keys": n})
